@@ -8,6 +8,9 @@ open DendroModel DendroModel.C12
   kind = A annotable | X taxon | N namespace | S annotation set | P plain | T tuple
   →  `ok <root'> <n_new> <obj>*` (the objects allocated by the copy, in allocation order, same encoding) | `err <what>`
 
+`shallow M <src> <blank> <member-attr-hex> <nobj> <obj>*` (TreeList / CharacterMatrix `__copy__`) and
+`shallow N <src> - - <nobj> <obj>*` (`TaxonNamespace(ns)`)  →  as `copy`;  `clone-depth <n>` → `shallow|scoped|deep|TypeError`
+
 `extract <0|1> <tree tokens> <edge label>*n <taxon label>*n`  →  rendering of the extracted tree -/
 
 def parseVal (t : String) : Option Val :=
@@ -78,6 +81,15 @@ def objEq : Option Obj → Option Obj → Bool
 def showErr : Err → String
   | .fuel => "err fuel" | .dangling => "err dangling" | .malformed => "err malformed"
 
+/-- the objects allocated (in allocation order), the old objects whose content differs after the copy (the subject of
+copy_no_write*), and the final memo (copy_fresh) -/
+def showResult (h : Heap) (s : St) (v : Val) : String :=
+  let new := (s.h.toList.drop h.size)
+  let changed := (List.range h.size).filter (fun x => !(objEq s.h[x]? h[x]?))
+  " ".intercalate (["ok", showVal v, toString new.length] ++ new.map showObj
+    ++ ["changed", toString changed.length] ++ changed.map toString
+    ++ ["memo", toString s.m.length] ++ s.m.flatMap (fun p => [toString p.1, toString p.2]))
+
 def handle (ws : List String) : String :=
   match ws with
   | "copy" :: root :: npre :: rest =>
@@ -92,17 +104,34 @@ def handle (ws : List String) : String :=
             let h : Heap := objs.toArray
             match copyRoute h pre root with
             | .error e => showErr e
-            | .ok (s, v) =>
-              let new := (s.h.toList.drop h.size)
-              -- old objects whose content differs after the copy (the subject of copy_no_write*), and the final memo (copy_fresh)
-              let changed := (List.range h.size).filter (fun x => !(objEq s.h[x]? h[x]?))
-              " ".intercalate (["ok", showVal v, toString new.length] ++ new.map showObj
-                ++ ["changed", toString changed.length] ++ changed.map toString
-                ++ ["memo", toString s.m.length] ++ s.m.flatMap (fun p => [toString p.1, toString p.2]))
+            | .ok (s, v) => showResult h s v
           | _ => "bad-op"
         | none => "bad-op"
       | _ => "bad-op"
     | _, _ => "bad-op"
+  | "shallow" :: which :: src :: b :: mem :: nobj :: rest =>
+    match src.toNat?, nobj.toNat? with
+    | some src, some nobj =>
+      match parseObjsN nobj rest with
+      | some (objs, []) =>
+        let h : Heap := objs.toArray
+        let res : Option (Except Err (St × Val)) :=
+          match which, b.toNat?, decodeStr mem with
+          | "M", some b, some (some mem) => some (shallowMembers h src b mem)
+          | "N", none, _ => if b == "-" && mem == "-" then some (shallowNs h src) else none
+          | _, _, _ => none
+        match res with
+        | none => "bad-op"
+        | some (.error e) => showErr e
+        | some (.ok (s, v)) => showResult h s v
+      | _ => "bad-op"
+    | _, _ => "bad-op"
+  | "clone-depth" :: [d] =>
+    match d.toNat? with
+    | some d =>
+      match cloneDepth d with
+      | some .shallow => "shallow" | some .scoped => "scoped" | some .deep => "deep" | none => "TypeError"
+    | none => "bad-op"
   | "extract" :: sup :: rest =>
     match parseTree rest with
     | some (tree, more) =>
